@@ -22,9 +22,14 @@ def shard_env(i):
 
 
 def run(prop, tier, seed, spec, t0):
+    results, outdir = run_shards(prop, tier, seed, M.NSHARDS)
+    return finish(prop, tier, seed, spec, t0, results, outdir)
+
+
+def run_shards(prop, tier, seed, nshards, suffix="", extra_args=()):
     M.cargo_build(["buildsim"], "build-buildsim.log")
-    outdir = os.path.join(M.WORK, "%s-%s" % (prop, tier))
-    extra = []
+    outdir = os.path.join(M.WORK, "%s-%s%s" % (prop, tier, suffix))
+    extra = list(extra_args)
     for k in ("units", "random", "images", "reps"):
         v = os.environ.get("VERIF_" + k.upper())
         if v:
@@ -34,9 +39,9 @@ def run(prop, tier, seed, spec, t0):
     os.makedirs(outdir)
     procs = []
     setarch = shutil.which("setarch")
-    for i in range(M.NSHARDS):
+    for i in range(nshards):
         cmd = [BIN, "run", "--prop", prop, "--tier", tier, "--seed", str(seed), "--shard", str(i),
-               "--nshards", str(M.NSHARDS), "--out", outdir] + extra
+               "--nshards", str(nshards), "--out", outdir] + extra
         if prop == "C13" and setarch and i % 2 == 1:
             cmd = [setarch, os.uname().machine, "-R"] + cmd
         out = open(os.path.join(outdir, "shard-%d.stdout" % i), "w")
@@ -54,6 +59,11 @@ def run(prop, tier, seed, spec, t0):
         results.append(json.load(open(path)))
     if bad:
         raise M.HarnessError("worker failure:\n" + "\n".join(bad))
+    return results, outdir
+
+
+def finish(prop, tier, seed, spec, t0, results, outdir):
+    setarch = shutil.which("setarch")
     extra_cov = {}
     extra_viol = []
     if prop == "C13":
